@@ -534,6 +534,11 @@ func (e *executor) executeMinRow(ctx context.Context, index string, c *pql.Call,
 		prevp, _ := prev.(Pair)
 		vp, _ := v.(Pair)
 		if prevp.Count > 0 && vp.Count > 0 {
+			if prevp.ID == vp.ID {
+				// Several shards share the row: report the total.
+				prevp.Count += vp.Count
+				return prevp
+			}
 			if prevp.ID < vp.ID {
 				return prevp
 			}
@@ -568,6 +573,11 @@ func (e *executor) executeMaxRow(ctx context.Context, index string, c *pql.Call,
 		prevp, _ := prev.(Pair)
 		vp, _ := v.(Pair)
 		if prevp.Count > 0 && vp.Count > 0 {
+			if prevp.ID == vp.ID {
+				// Several shards share the row: report the total.
+				prevp.Count += vp.Count
+				return prevp
+			}
 			if prevp.ID > vp.ID {
 				return prevp
 			}
